@@ -11,8 +11,10 @@ descriptors of every emitted class):
     (number, type, label, referenced type, oneof, presence, map key/value) — `decl_roundtrip`;
   * enum values survive (as a multiset; in order when the input is sorted) — and the import FAILS for a
     negative value (`enum_negative_counterexample`, a proto-plus limitation, outside the generator);
-  * `Address.rel` resolves to the referenced type under Python scoping EXCEPT in the shape of
-    `rel_counterexample` (§9-F9): a nested message `X.A` referring to `A.B`.
+  * `Address.rel` resolves to the referenced type under Python scoping for EVERY same-module shape
+    (`rel_resolves`, no exclusion since the `fix:` commit 92701a6); the former §9-F9 inputs — a nested
+    message `X.A` referring to `A.B` — are kept as regression theorems (`rel_shadowed_regression`,
+    `rel_shadowed_nested_regression`).
 -/
 namespace GapicModel.Props.C02
 open GapicModel.Model.Types
@@ -454,8 +456,9 @@ theorem manifest_exact (m : Module) (es ms : List Name)
 def PrefixClosed (types : List (List Name)) : Prop :=
   ∀ p q, p ++ q ∈ types → p ≠ [] → p ∈ types
 
-/-- the shape §9-F9: a NESTED message whose own simple name equals the top-level ancestor of the
-    target, while its own top-level ancestor is a different message -/
+/-- the shape of the repaired defect §9-F9: a NESTED message whose own simple name equals the top-level
+    ancestor of the target, while its own top-level ancestor is a different message (used by the
+    regression theorems only; `rel_resolves` no longer excludes it) -/
 def ShadowedShape (cp : List Name) (cn : Name) (tp : List Name) : Prop :=
   cp ≠ [] ∧ tp ≠ [] ∧ tp.head? = some cn ∧ tp.head? ≠ cp.head?
 
@@ -463,14 +466,13 @@ instance (cp : List Name) (cn : Name) (tp : List Name) : Decidable (ShadowedShap
   unfold ShadowedShape; infer_instance
 
 /-- **Same-module references resolve to the referenced type** — whatever the nesting, forward or
-    backward, self- or mutually recursive — outside `ShadowedShape`. -/
+    backward, self- or mutually recursive, shadowed names included. -/
 theorem rel_resolves (version : Name) (m : Module) (sc : Scope) (self ctx : Addr)
     (hpc : PrefixClosed m.types)
     (hsame : self.package = ctx.package ∧ self.module = ctx.module)
     (hpkg : m.package = self.package)
     (hctx : sc.ctx = ctx.parent ++ [ctx.name])
-    (ht : self.parent ++ [self.name] ∈ m.types)
-    (hshape : ¬ ShadowedShape ctx.parent ctx.name self.parent) :
+    (ht : self.parent ++ [self.name] ∈ m.types) :
     (rel version self ctx).map (resolveRef m sc) = some (.type self.full) := by
   have hq : plusResolve m (self.parent ++ [self.name]) = .type self.full := by
     simp [plusResolve, ht, Addr.full, hpkg]
@@ -481,16 +483,7 @@ theorem rel_resolves (version : Name) (m : Module) (sc : Scope) (self ctx : Addr
   · rename_i h1
     split
     · rename_i h2
-      -- the context must be top-level, otherwise this is the shadowed shape
-      have hcp : ctx.parent = [] := by
-        by_cases hcp : ctx.parent = []
-        · exact hcp
-        · exfalso
-          apply hshape
-          refine ⟨hcp, h2.1, h2.2, ?_⟩
-          intro heq
-          exact h1 ⟨h2.1, hcp, heq⟩
-      obtain ⟨hp, hhead⟩ := h2
+      obtain ⟨hp, hcp, hhead⟩ := h2
       cases hsp : self.parent with
       | nil => exact absurd hsp hp
       | cons s0 tp =>
@@ -574,32 +567,48 @@ theorem decl_roundtrip_python (version : Name) (m : Module) (sc : Scope) (ctx : 
   simp only [hm, Bool.false_eq_true, if_false]
   exact resolves_of_rel version m sc ctx f.target h
 
-/-- §9-F9 at the smallest input: `message A { message B {} }  message X { message A { A.B f = 1; } }`.
-    The template prints the bare name `B` inside the body of `X.A`, where no `B` is bound: importing
-    the types module raises `NameError`. -/
-theorem rel_counterexample :
+/-- regression for §9-F9 (repaired by 92701a6) at its smallest input:
+    `message A { message B {} }  message X { message A { A.B f = 1; } }`.  The template now prints the quoted
+    full path `'A.B'` inside the body of `X.A` and it resolves to `A.B` (before the repair: the bare `B`,
+    `NameError` on import). -/
+theorem rel_shadowed_regression :
     let pkg := ["acme".toList]
     let m : Module := ⟨pkg, [["A".toList], ["A".toList, "B".toList], ["X".toList], ["X".toList, "A".toList]],
                        ["A".toList, "X".toList]⟩
     let tgt : Addr := ⟨pkg, "lib".toList, ["A".toList], "B".toList, true, false⟩
     let ctx : Addr := ⟨pkg, "lib".toList, ["X".toList], "A".toList, true, false⟩
-    rel [] tgt ctx = some (.bare ["B".toList]) ∧
-    resolveRef m ⟨["X".toList, "A".toList], [], []⟩ (.bare ["B".toList]) = .nameError ∧
-    ShadowedShape ctx.parent ctx.name tgt.parent := by
+    ShadowedShape ctx.parent ctx.name tgt.parent ∧
+    rel [] tgt ctx = some (.quoted ["A".toList, "B".toList]) ∧
+    (rel [] tgt ctx).map (resolveRef m ⟨["X".toList, "A".toList], [], []⟩) = some (.type tgt.full) := by
   decide
 
-/-- the same shape when `X.A` has its own nested `B`: the reference silently binds to the WRONG type
-    (`X.A.B` instead of `A.B`) -/
-theorem rel_wrong_type_counterexample :
+/-- regression for the silent variant: `X.A` has its own nested `B`; the reference still binds to `A.B`
+    (before the repair: to `X.A.B`, the wrong type on the wire) -/
+theorem rel_shadowed_nested_regression :
     let pkg := ["acme".toList]
     let m : Module := ⟨pkg, [["A".toList], ["A".toList, "B".toList], ["X".toList], ["X".toList, "A".toList],
                              ["X".toList, "A".toList, "B".toList]], ["A".toList, "X".toList]⟩
     let tgt : Addr := ⟨pkg, "lib".toList, ["A".toList], "B".toList, true, false⟩
     let ctx : Addr := ⟨pkg, "lib".toList, ["X".toList], "A".toList, true, false⟩
     (rel [] tgt ctx).map (resolveRef m ⟨["X".toList, "A".toList], [], []⟩) =
-      some (.type ["acme".toList, "X".toList, "A".toList, "B".toList]) ∧
+      some (.type ["acme".toList, "A".toList, "B".toList]) ∧
     tgt.full = ["acme".toList, "A".toList, "B".toList] := by
   decide
+
+/-- the bare-name rule survives where it is sound: a TOP-LEVEL message referring to its own nested type -/
+theorem rel_bare_only_from_top_level (version : Name) (self ctx : Addr) (segs : List Name)
+    (h : rel version self ctx = some (.bare segs))
+    (hsame : self.package = ctx.package ∧ self.module = ctx.module) :
+    ctx.parent = [] ∧ self.parent.head? = some ctx.name ∧ segs = self.parent.tail ++ [self.name] := by
+  unfold rel at h
+  simp only [hsame, and_self, if_true] at h
+  split at h
+  · simp at h
+  · split at h
+    · rename_i h2
+      simp only [Option.some.injEq, Ref.bare.injEq] at h
+      exact ⟨h2.2.1, h2.2.2, h.symm⟩
+    · simp at h
 
 /-! ## Non-vacuity -/
 
@@ -628,7 +637,6 @@ example :
                              ["A".toList, "C".toList, "D".toList]], ["A".toList]⟩
     let tgt : Addr := ⟨pkg, "lib".toList, ["A".toList, "C".toList], "D".toList, true, false⟩
     let ctx : Addr := ⟨pkg, "lib".toList, ["A".toList], "B".toList, true, false⟩
-    ¬ ShadowedShape ctx.parent ctx.name tgt.parent ∧
     (rel [] tgt ctx).map (resolveRef m ⟨["A".toList, "B".toList], [], []⟩) = some (.type tgt.full) := by
   decide
 
